@@ -33,6 +33,11 @@ func (e *enp) NewConnection(core gen.Core, result gen.HandshakeResult, log gen.L
 		return nil, gen.ErrNotAllowed
 	}
 
+	if opts.PoolSize < 1 {
+		// no receive queues: serve would divide by zero on the first message
+		return nil, fmt.Errorf("incorrect pool size %d", opts.PoolSize)
+	}
+
 	log.Trace("create new connection with %s (pool size: %d)", result.Peer, opts.PoolSize)
 	conn := &connection{
 		id:                  result.ConnectionID,
